@@ -137,14 +137,14 @@ def text_of(e):
         t1, t2 = rel_term(name, var, off, "s"), rel_term(name, var, off2, "s")
         return "%s:%s" % (key, {"eq": t1, "ge": t1 + ":", "le": ":" + t1, "range": t1 + ":" + t2}[mode])
     if k == "relhost":
-        return "%s:@%s:%s@%s" % (e[1], e[2], e[3], "" if e[4] is None else "/%d" % e[4])
+        return "%s:%s%s" % (e[1], rel_term(e[2], e[3], 0), "" if e[4] is None else "/%d" % e[4])
     if k == "relproto":
         return "protocol:@%s:protocol@" % e[1]
     raise ValueError(e)
 
 
 def rel_term(name, var, off, unit=""):
-    t = "@%s:%s@" % (name, var)
+    t = ("@%s:%s@" % (name, var)) if name else ("@%s@" % var)   # name "" = a variable of the own stream
     if off:
         t += ("+%d%s" % (off, unit)) if off > 0 else ("-%d%s" % (-off, unit))
     return t
@@ -216,7 +216,7 @@ def eval_expr(e, s, tagtruth, env=None):
         return eval_expr(e[2], env[e[1]], tagtruth, env)
     if k in ("relnum", "reltime"):
         _, key, name, var, off, mode, off2 = e
-        o = env[name]
+        o = env[name] if name else s
         if k == "relnum":
             fields = NUMFIELDS[key]
             base, lo_f, hi_f, unit = o[NUMFIELDS[var][0]], fields, fields, 1
@@ -231,7 +231,7 @@ def eval_expr(e, s, tagtruth, env=None):
         return (lo is None or s[lo_f[0]] >= lo) and (hi is None or s[hi_f[0]] <= hi)
     if k == "relhost":
         fields = {"chost": ["ch"], "shost": ["sh"], "host": ["ch", "sh"]}[e[1]]
-        other = env[e[2]][{"chost": "ch", "shost": "sh"}[e[3]]]
+        other = (env[e[2]] if e[2] else s)[{"chost": "ch", "shost": "sh"}[e[3]]]
         return any(host_match(s[f], other, e[4]) for f in fields)
     if k == "relproto":
         return s["proto"] == env[e[1]]["proto"]
@@ -255,7 +255,7 @@ def sub_names(e, acc=None):
             acc.append(e[1])
         sub_names(e[2], acc)
     elif k in ("relnum", "reltime", "relhost"):
-        if e[2] not in acc:
+        if e[2] and e[2] not in acc:
             acc.append(e[2])
     elif k == "relproto":
         if e[1] not in acc:
@@ -279,8 +279,9 @@ def connected(e):
             used.add(x[1])
             walk(x[2], x[1])
         elif k in ("relnum", "reltime", "relhost"):
-            used.add(x[2])
-            edges.add((owner, x[2]))
+            if x[2] != owner:
+                used.add(x[2])
+                edges.add((owner, x[2]))
         elif k == "relproto":
             used.add(x[1])
             edges.add((owner, x[1]))
@@ -325,7 +326,9 @@ def gen_range(rng, pool, single_p=0.5):
     return (a, b)
 
 
-def gen_atom(rng, ids, tagnames, intag=False):
+def gen_atom(rng, ids, tagnames, intag=False, own=True):
+    if own and not intag and rng.random() < 0.07:
+        return gen_own_rel(rng)
     r = rng.random()
     if tagnames and r < 0.22:
         t = rng.choice(tagnames)
@@ -510,11 +513,27 @@ def gen_rel(rng, name):
     return ("relproto", name)
 
 
+def gen_own_rel(rng):
+    """A relation between two attributes of the SAME stream through a variable of the own query, e.g. a duration
+    bound `ltime:@ftime@+5s:` (such a time filter depends on ftime and ltime: no per-file shortcut applies)."""
+    r = rng.random()
+    if r < 0.6:
+        key, var = rng.choice([("ltime", "ftime"), ("ltime", "ftime"), ("ftime", "ltime"), ("time", "ftime"), ("time", "ltime")])
+        off = rng.choice([0, 1, 5, 30, 60, 600]) * (1 if var == "ftime" else -1)
+        mode = rng.choice(["ge", "ge", "le", "le", "eq", "range"])
+        return ("reltime", key, "", var, off, mode, off + rng.choice([0, 4, 55, 540]))
+    if r < 0.85:
+        key, var = rng.choice([("cport", "sport"), ("sport", "cport"), ("cbytes", "sbytes"), ("sbytes", "cbytes"), ("bytes", "cbytes")])
+        off = rng.choice([0, 0, 1, -1, 920, -920, 5])
+        return ("relnum", key, "", var, off, rng.choice(["eq", "ge", "le", "range"]), off + rng.choice([0, 1, 10]))
+    return ("relhost", rng.choice(["chost", "shost"]), "", rng.choice(["chost", "shost"]), rng.choice([None, None, 24, 8]))
+
+
 def gen_sub_expr(rng, ids, tagnames, tagexprs):
     """Queries with sub-queries in the forms the engine evaluates: sub-queries that form a chain
     (main -> a, or main -> a -> b); relations through variables; conditions on the sub-query streams."""
     for _ in range(200):
-        a_atoms = [("sub", "a", gen_atom(rng, ids, [])) for _ in range(rng.choice([0, 1, 1, 2]))]
+        a_atoms = [("sub", "a", gen_atom(rng, ids, [], own=False)) for _ in range(rng.choice([0, 1, 1, 2]))]
         a_atoms = [("not", x) if rng.random() < 0.15 else x for x in a_atoms]
         rels = [gen_rel(rng, "a") for _ in range(rng.choice([1, 1, 2]))]
         rels = [("not", x) if rng.random() < 0.2 else x for x in rels]
@@ -523,10 +542,10 @@ def gen_sub_expr(rng, ids, tagnames, tagexprs):
         r2 = rng.random()
         if r2 < 0.2:     # chain: a is related to b
             parts.append(("sub", "a", gen_rel(rng, "b")))
-            parts += [("sub", "b", gen_atom(rng, ids, [])) for _ in range(rng.choice([0, 1]))]
+            parts += [("sub", "b", gen_atom(rng, ids, [], own=False)) for _ in range(rng.choice([0, 1]))]
         elif r2 < 0.4:   # two sub-queries next to each other, both related to the main query
             parts.append(("not", gen_rel(rng, "b")) if rng.random() < 0.15 else gen_rel(rng, "b"))
-            parts += [("sub", "b", gen_atom(rng, ids, [])) for _ in range(rng.choice([0, 1, 1]))]
+            parts += [("sub", "b", gen_atom(rng, ids, [], own=False)) for _ in range(rng.choice([0, 1, 1]))]
         rng.shuffle(parts)
         e = ("and", parts, False) if len(parts) > 1 else parts[0]
         r = rng.random()
@@ -1320,6 +1339,8 @@ def main(tier, seed, replay=None):
                 if sp["n"]:
                     stats["nonempty"] += 1
                     distinct.add(hash((batch, pi, sr["q"], repr(sr["sort"]), sr["limit"], sr["skip"], repr(sr["ids"]))))
+                if "@ftime@" in sr["q"] or "@ltime@" in sr["q"]:
+                    stats["own_time_variable_searches"] = stats.get("own_time_variable_searches", 0) + 1
                 nsub = len(sub_names(sr["expr"]))
                 if nsub:
                     stats["subquery_searches"] = stats.get("subquery_searches", 0) + 1
